@@ -108,6 +108,15 @@ def main():
         print(tb, file=sys.stderr)
         res.coverage.setdefault('explanation', '')
         res.coverage['harness_error'] = tb[-3000:]
+        # an exception raised INSIDE the implementation under test while the harness exercised it on an input the
+        # unchanged code handles: the correspondence can no longer be established, which is reported as a violation
+        # without a concrete failing input (the traceback is the replay); anything else is a harness failure (exit 2)
+        impl = {os.path.join(r, 'pykoop') + os.sep for r in (common.REPO, os.path.realpath(common.REPO))}
+        if any(i in tb for i in impl):
+            res.violation(dict(property=pid, broken=['the implementation raised while the check was establishing the '
+                                                     'model / implementation correspondence: ' + tb[-2500:]],
+                               theorem_or_correspondence='correspondence run of ' + pid), found_input=False)
+            sys.exit(res.finish() or 1)
         res.finish()
         print(f'ERROR: check machinery for {pid} crashed (not a verdict)', file=sys.stderr)
         sys.exit(2)
